@@ -1,27 +1,78 @@
 """C10 - customising one loader or dumper class never changes another.
 
-TLC explores spec/Registry.tla (all registration histories up to a bound, L refines H, frame conditions);
-every reachable state of the MBT configurations is one history which is replayed against the live classes in a
-forked child; the effective tables (abstracted by alpha) and the behaviour probes of every class are compared
-with the H prediction carried in the state (eff, beh).  L-only facts (own flags) are drift notes."""
-import json, os, re, sys, random, multiprocessing as mp
-from .. import tlc, tlaval
-from ..common import Verdict, use_repo, SEED, BUILD, ensure_dir
+TLC explores spec/Registry.tla (all registration histories up to a bound, L refines H, frame conditions); every
+reachable state of a configuration is one history and carries the H prediction (eff: effective tables, beh: results of
+the behaviour probes).  The histories of a configuration form a tree (a history extends its prefix by one operation);
+the replay walks that tree over the live classes, one forked process per node, so that every node starts from exactly
+the class state its prefix left behind (the histories that END below a node share one process and put the registries back
+after each of them):
 
-USERS_QUICK = ['U1']
+  plain lineage   no class is used before the node is checked: the node's children are forked off BEFORE its check;
+  used lineage    every class was used (all behaviour probes, subclasses before their bases) after every step: the
+                  children are forked off AFTER the check of their parent, starting below the one-step histories.
+
+A check compares, for every class of the lattice, the effective tables (abstracted by alpha) and the behaviour by real
+dispatch (construct a node / represent an instance / resolve a scalar / compose and serialize a document through an
+instance of the class) with the H prediction.  L-only facts (own flags) are drift notes."""
+import io, json, os, re, mmap, tempfile, traceback, multiprocessing as mp
+from concurrent.futures import ThreadPoolExecutor, as_completed
+from .. import tlc, tlaval, mbt
+from ..common import Verdict, use_repo, BUILD, ensure_dir
+
+LOADERS = ['BaseLoader', 'SafeLoader', 'FullLoader', 'Loader', 'UnsafeLoader', 'CBaseLoader', 'CSafeLoader',
+           'CFullLoader', 'CUnsafeLoader', 'CLoader']
+DUMPERS = ['BaseDumper', 'SafeDumper', 'Dumper', 'CBaseDumper', 'CSafeDumper', 'CDumper']
+CTOR_MIXINS = ['BaseConstructor', 'SafeConstructor', 'FullConstructor', 'UnsafeConstructor', 'Constructor']
+REPR_MIXINS = ['BaseRepresenter', 'SafeRepresenter', 'Representer']
+RES_MIXINS = ['BaseResolver', 'Resolver']
+MIXINS = CTOR_MIXINS + REPR_MIXINS + RES_MIXINS
+ALLK = ['ctor', 'mctor', 'repr', 'mrepr', 'impl', 'path']
 CONFIGS = {
-    # name: (Targets, OpKinds, MaxHist quick, MaxHist thorough)
-    'ctor': (['SafeLoader', 'Loader'], ['ctor', 'mctor'], 3, 4),
-    'repr': (['SafeDumper', 'Dumper'], ['repr', 'mrepr'], 3, 4),
-    'res': (['SafeLoader', 'SafeDumper'], ['impl', 'path'], 3, 4),
-    'cross': (['SafeLoader', 'Loader', 'SafeDumper', 'Dumper'],
-              ['ctor', 'mctor', 'repr', 'impl', 'yobj', 'module'], 2, 3),
-    'wide': (['BaseLoader', 'SafeLoader', 'FullLoader', 'Loader', 'UnsafeLoader', 'CBaseLoader', 'CSafeLoader',
-              'CFullLoader', 'CUnsafeLoader', 'CLoader', 'BaseDumper', 'SafeDumper', 'Dumper', 'CBaseDumper',
-              'CSafeDumper', 'CDumper'], ['ctor', 'mctor', 'repr', 'mrepr', 'impl', 'path'], 2, 2),
+    # name: (Targets, OpKinds, Users, FreshVals, MaxHist quick (0: thorough only), MaxHist thorough)
+    # the two leaf classes of a kind pair and the mixins that own their tables at import
+    'ctor': (['SafeLoader', 'Loader', 'SafeConstructor', 'FullConstructor'], ['ctor', 'mctor'], ['U1'], True, 3, 3),
+    'repr': (['SafeDumper', 'Dumper', 'SafeRepresenter', 'Representer'], ['repr', 'mrepr'], ['U1'], True, 3, 3),
+    'res': (['SafeLoader', 'SafeDumper', 'Resolver'], ['impl', 'path'], ['U1'], True, 3, 3),
+    # every class of the two chains is a target; values chosen freely (a value can be registered twice)
+    'ctorchain': (['SafeLoader', 'Loader'] + CTOR_MIXINS, ['ctor', 'mctor'], ['U1'], False, 2, 2),
+    'reprchain': (['SafeDumper', 'Dumper'] + REPR_MIXINS, ['repr', 'mrepr'], ['U1'], False, 2, 2),
+    'reschain': (['SafeLoader', 'SafeDumper'] + RES_MIXINS, ['impl', 'path'], ['U1'], False, 2, 2),
+    # all kinds together, the module-level helpers and YAMLObject classes
+    'cross': (['SafeLoader', 'Loader', 'SafeDumper', 'Dumper'], ['ctor', 'mctor', 'repr', 'impl', 'yobj', 'module'],
+              ['U1', 'U2'], True, 2, 2),
+    # every shipped loader and dumper is a target
+    'wide': (LOADERS + DUMPERS, ALLK, ['U1'], True, 1, 2),
+    # deep and two user classes (thorough)
+    'ctor4': (['SafeLoader', 'Loader'], ['ctor', 'mctor'], ['U1', 'U2'], True, 0, 4),
+    'repr4': (['SafeDumper', 'Dumper'], ['repr', 'mrepr'], ['U1', 'U2'], True, 0, 4),
+    'res4': (['SafeLoader', 'SafeDumper'], ['impl', 'path'], ['U1', 'U2'], True, 0, 4),
 }
 ATTR = {'ctor': 'yaml_constructors', 'mctor': 'yaml_multi_constructors', 'repr': 'yaml_representers',
         'mrepr': 'yaml_multi_representers', 'impl': 'yaml_implicit_resolvers', 'path': 'yaml_path_resolvers'}
+NVALS = 5
+DOC = 'key1: v\nkey2: [w]\n'
+OP_ACTION = {'add': 'Add', 'module': 'ModuleAdd', 'yobj': 'YObj', 'ysub': 'YSub', 'sub': 'DefineSub'}
+BUCKET_LIMIT = 1000         # histories per replay task; larger subtrees are split below their root
+
+
+class Feeder:
+    """Stands in for the scanner/parser of a pure-Python loader instance: hands the events of DOC to the real Composer."""
+
+    def __init__(self, evs):
+        self.evs, self.i = evs, 0
+
+    def check_event(self, *choices):
+        if self.i < len(self.evs):
+            return not choices or isinstance(self.evs[self.i], choices)
+        return False
+
+    def peek_event(self):
+        return self.evs[self.i] if self.i < len(self.evs) else None
+
+    def get_event(self):
+        e = self.evs[self.i]
+        self.i += 1
+        return e
 
 
 # ------------------------------------------------------------------ concretisation
@@ -30,28 +81,35 @@ class World:
 
     def __init__(self):
         self.yaml = y = use_repo()
-        from yaml import constructor, representer, resolver, nodes
-        self.nodes = nodes
+        from yaml import constructor, representer, resolver, nodes, events, parser
+        self.nodes = N = nodes
+        self.pure_parser = parser.Parser
         self.cls = {}
-        for n in ['BaseConstructor', 'SafeConstructor', 'FullConstructor', 'UnsafeConstructor', 'Constructor']:
+        for n in CTOR_MIXINS:
             self.cls[n] = getattr(constructor, n)
-        for n in ['BaseRepresenter', 'SafeRepresenter', 'Representer']:
+        for n in REPR_MIXINS:
             self.cls[n] = getattr(representer, n)
-        for n in ['BaseResolver', 'Resolver']:
+        for n in RES_MIXINS:
             self.cls[n] = getattr(resolver, n)
-        for n in ['BaseLoader', 'SafeLoader', 'FullLoader', 'Loader', 'UnsafeLoader', 'CBaseLoader', 'CSafeLoader',
-                  'CFullLoader', 'CUnsafeLoader', 'CLoader', 'BaseDumper', 'SafeDumper', 'Dumper', 'CBaseDumper',
-                  'CSafeDumper', 'CDumper']:
+        for n in LOADERS + DUMPERS:
             self.cls[n] = getattr(y, n)
         self.root = {n: n for n in self.cls}          # nearest shipped ancestor
 
-        def f1(loader, *a): return 'F1'
-        def f2(loader, *a): return 'F2'
-        def r1(dumper, data): return dumper.represent_scalar('!F1', 'x')
-        def r2(dumper, data): return dumper.represent_scalar('!F2', 'x')
-        self.fn = {'ctor': {'F1': f1, 'F2': f2}, 'mctor': {'F1': f1, 'F2': f2},
-                   'repr': {'F1': r1, 'F2': r2}, 'mrepr': {'F1': r1, 'F2': r2},
-                   'impl': {'G1': '!g1', 'G2': '!g2'}, 'path': {'G1': '!g1', 'G2': '!g2'}}
+        def mk_ctor(i):
+            def f(loader, *a): return 'F%d' % i
+            return f
+
+        def mk_repr(i):
+            def r(dumper, data): return dumper.represent_scalar('!F%d' % i, 'x')
+            return r
+        F = ['F%d' % i for i in range(1, NVALS + 1)]
+        G = ['G%d' % i for i in range(1, NVALS + 1)]
+        cf = {a: mk_ctor(i + 1) for i, a in enumerate(F)}
+        rf = {a: mk_repr(i + 1) for i, a in enumerate(F)}
+        gt = {a: '!' + a.lower() for a in G}
+        self.fn = {'ctor': cf, 'mctor': cf, 'repr': rf, 'mrepr': rf, 'impl': gt, 'path': gt}
+        self.gname = {t: a for a, t in gt.items()}
+        self.fnames = set(F)
         K1 = type('K1', (), {})
         K2 = type('K2', (K1,), {})
         self.K = {'T1': K1, 'T2': K2}
@@ -66,35 +124,22 @@ class World:
         }
         self.pathargs = {'Q1': (['key1'], None), 'Q2': (['key2', 0], str)}
         self.regex = re.compile(r'^[a0]x*$')
+        # the events of DOC (what scanner + parser deliver) and its representation graph (what a representer delivers)
+        E = events
+        self.doc_events = [E.StreamStartEvent(), E.DocumentStartEvent(explicit=False), E.MappingStartEvent(None, None, True),
+                           E.ScalarEvent(None, None, (True, False), 'key1'), E.ScalarEvent(None, None, (True, False), 'v'),
+                           E.ScalarEvent(None, None, (True, False), 'key2'),
+                           E.SequenceStartEvent(None, None, True, flow_style=True),
+                           E.ScalarEvent(None, None, (True, False), 'w'), E.SequenceEndEvent(), E.MappingEndEvent(),
+                           E.DocumentEndEvent(explicit=False), E.StreamEndEvent()]
+        S = 'tag:yaml.org,2002:str'
+        self.doc_node = N.MappingNode('tag:yaml.org,2002:map', [
+            (N.ScalarNode(S, 'key1'), N.ScalarNode(S, 'v')),
+            (N.ScalarNode(S, 'key2'), N.SequenceNode('tag:yaml.org,2002:seq', [N.ScalarNode(S, 'w')]))])
         # import-time effective tables (the frame)
         self.init = {n: {k: self.snapshot(c, k) for k in ATTR if hasattr(c, ATTR[k])} for n, c in self.cls.items()}
         self.base_beh = {}
-        self.shipped = dict(self.cls)
-        self.own0 = {(n, k): c.__dict__.get(ATTR[k]) for n, c in self.cls.items() for k in ATTR}
-
-    def reset(self):
-        """Undo a history: restore every class attribute (object identity and contents) to the import-time state,
-        forget user classes; then verify that the effective tables equal the import-time snapshot."""
-        for n, c in self.shipped.items():
-            for k, attr in ATTR.items():
-                o = self.own0[(n, k)]
-                if o is None:
-                    if attr in c.__dict__:
-                        delattr(c, attr)
-                else:
-                    if c.__dict__.get(attr) is not o:
-                        setattr(c, attr, o)
-                    init = self.init[n][k]
-                    o.clear()
-                    for kk, v in init:
-                        o[kk] = list(v) if k == 'impl' else v
-        self.cls = dict(self.shipped)
-        self.root = {n: n for n in self.cls}
-        self.Y = {}
-        for n, c in self.shipped.items():
-            for k in self.init[n]:
-                if self.snapshot(c, k) != self.init[n][k]:
-                    raise RuntimeError('reset failed for %s.%s' % (n, ATTR[k]))
+        self._alpha0 = {}
 
     def snapshot(self, c, k):
         t = getattr(c, ATTR[k])
@@ -102,42 +147,63 @@ class World:
             return [(ch, list(l)) for ch, l in t.items()]
         return list(t.items())
 
+    # the state of the registries, to return to it after a leaf of the history tree (see Walk.leaves)
+    def save(self):
+        tabs = []
+        for c in self.cls.values():
+            for k, attr in ATTR.items():
+                if hasattr(c, attr):
+                    o = c.__dict__.get(attr)
+                    tabs.append((c, k, attr, o, None if o is None else self.snapshot(c, k)))
+        return tabs, dict(self.cls), dict(self.root), dict(self.Y)
+
+    def restore(self, saved):
+        tabs, self.cls, self.root, self.Y = saved[0], dict(saved[1]), dict(saved[2]), dict(saved[3])
+        for c, k, attr, o, items in tabs:
+            if o is None:
+                if attr in c.__dict__:
+                    delattr(c, attr)
+                continue
+            if c.__dict__.get(attr) is not o:
+                setattr(c, attr, o)
+            if self.snapshot(c, k) != items:
+                o.clear()
+                for kk, v in items:
+                    o[kk] = list(v) if k == 'impl' else v
+
     # abstraction of a real effective table relative to the import-time table of the class's shipped root
     def alpha(self, name, k):
         c = self.cls[name]
         real = self.snapshot(c, k)
-        init = self.init[self.root[name]][k]
-        inv = {}
-        for a, ck in self.key[k].items():
-            inv[ck] = a
-        if k == 'repr':
+        root = self.root[name]
+        if (root, k) not in self._alpha0:
+            inv = {ck: a for a, ck in self.key[k].items()}
+            init = self.init[root][k]
+            self._alpha0[(root, k)] = (inv, dict(init), [(kk, v) for kk, v in init if self._notmodel(k, kk, inv)])
+        inv, initd, iframe = self._alpha0[(root, k)]
+        if k == 'repr' and self.Y:
+            inv = dict(inv)
             for a, yc in self.Y.items():
                 inv[yc] = a
         out, frame = [], []
-        initd = dict((kk, v) for kk, v in init)
         for kk, v in real:
             try:
                 a = inv.get(kk)
             except TypeError:
                 a = None
-            if k == 'impl':
-                if a is None:
-                    frame.append((kk, v))
-                    continue
+            if a is None:
+                frame.append((kk, v))
+            elif k == 'impl':
                 i0 = initd.get(kk, [])
                 if v[:len(i0)] == i0:
                     rest, av = v[len(i0):], (['ORIG'] if i0 else [])
                 else:
                     rest, av = v, ['?changed-prefix']
                 for tag, rx in rest:
-                    av.append({'!g1': 'G1', '!g2': 'G2'}.get(tag, '?' + str(tag)))
+                    av.append(self.gname.get(tag, '?' + str(tag)))
                 out.append([a, av])
             else:
-                if a is None:
-                    frame.append((kk, v))
-                    continue
                 out.append([a, self.aval(k, kk, v, initd)])
-        iframe = [(kk, v) for kk, v in init if self._notmodel(k, kk, inv)]
         if frame != iframe:
             out.append(['?FRAME', 'changed'])
         return out
@@ -171,20 +237,25 @@ class World:
             _, k, c, key, val = op
             self.call(self.cls[c], k, key, val)
         elif kind == 'module':
-            _, k, key, val = op
+            _, k, key, val, L, D = op
+            kw = {}
+            if L != '-':
+                kw['Loader'] = self.cls[L]
+            if D != '-':
+                kw['Dumper'] = self.cls[D]
             if k == 'ctor':
-                y.add_constructor(self.key[k][key], self.fn[k][val])
+                y.add_constructor(self.key[k][key], self.fn[k][val], **kw)
             elif k == 'mctor':
-                y.add_multi_constructor(self.key[k][key], self.fn[k][val])
+                y.add_multi_constructor(self.key[k][key], self.fn[k][val], **kw)
             elif k == 'repr':
-                y.add_representer(self.key[k][key], self.fn[k][val])
+                y.add_representer(self.key[k][key], self.fn[k][val], **kw)
             elif k == 'mrepr':
-                y.add_multi_representer(self.key[k][key], self.fn[k][val])
+                y.add_multi_representer(self.key[k][key], self.fn[k][val], **kw)
             elif k == 'impl':
-                y.add_implicit_resolver(self.fn[k][val], self.regex, self.firsts(key))
+                y.add_implicit_resolver(self.fn[k][val], self.regex, self.firsts(key), **kw)
             elif k == 'path':
                 p, kd = self.pathargs[key]
-                y.add_path_resolver(self.fn[k][val], p, kd)
+                y.add_path_resolver(self.fn[k][val], p, kd, **kw)
         elif kind == 'yobj':
             _, tag, lds, d = op
             ld = [self.cls[x] for x in lds]
@@ -220,87 +291,177 @@ class World:
             p, kd = self.pathargs[key]
             c.add_path_resolver(self.fn[k][val], p, kd)
 
-    # ------------------------------------------------------------- behaviour probes
-    def probe(self, name, p):
-        c = self.cls[name]
-        y, N = self.yaml, self.nodes
+    # ------------------------------------------------------------- behaviour probes (real dispatch through an instance)
+    def guard(self, fn, *a):
         try:
-            if p[0] == 'c':
-                tag = {'cT1': '!t1', 'cT2': '!t2', 'cY1': '!y1'}[p]
-                ld = c('')
-                try:
-                    if p == 'cY1':
-                        node = N.MappingNode(tag, [])
-                    else:
-                        node = N.ScalarNode(tag, 'v')
-                    r = ld.construct_document(node)
-                finally:
-                    ld.dispose()
-                if r in ('F1', 'F2'):
-                    return r
-                if type(r) in self.Y.values():
-                    return 'FY'
-                return 'val:' + type(r).__name__
-            if p[0] == 'r':
-                if p == 'rY1':
-                    if 'Y1' not in self.Y:
-                        # no YAMLObject class exists: represent an instance of an unrelated fresh class
-                        obj = type('Z', (), {})()
-                    else:
-                        obj = self.Y['Y1'].__new__(self.Y['Y1'])
-                    obj.attr = 1
-                else:
-                    obj = self.K[p[1:]]()
-                import io
-                d = c(io.StringIO())
-                try:
-                    node = d.represent_data(obj)
-                finally:
-                    d.dispose()
-                if node.tag in ('!F1', '!F2'):
-                    return node.tag[1:]
-                if node.tag == '!y1':
-                    return 'FY'
-                return 'tag:' + re.sub(r'(python/object:).*', r'\1*', node.tag)
-            if p[0] == 'i':
-                val = {'ia': 'axx', 'iE': '0xx'}[p]
-                import io
-                inst = c('') if hasattr(c, 'construct_document') else c(io.StringIO())
-                try:
-                    inst.descend_resolver(None, None)      # what compose_document / serialize do first
-                    t = inst.resolve(N.ScalarNode, val, (True, False))
-                finally:
-                    inst.dispose()
-                return {'!g1': 'G1', '!g2': 'G2'}.get(t, 'tag:' + t)
-            if p[0] == 'p':
-                node = y.compose('key1: v\nkey2: [w]\n', Loader=c)
-                d = {k.value: v for k, v in node.value}
-                t = d['key1'].tag if p == 'pQ1' else d['key2'].value[0].tag
-                return {'!g1': 'G1', '!g2': 'G2'}.get(t, 'tag:' + t)
-        except y.YAMLError as e:
+            return fn(*a)
+        except self.yaml.YAMLError as e:
             return 'err:' + type(e).__name__
         except Exception as e:  # behaviour of interest, not a harness failure
             return 'exc:' + type(e).__name__
-        return '?'
+
+    def p_construct(self, ld, p):
+        N = self.nodes
+        tag = {'cT1': '!t1', 'cT2': '!t2', 'cY1': '!y1'}[p]
+        node = N.MappingNode(tag, []) if p == 'cY1' else N.ScalarNode(tag, 'v')
+        r = ld.construct_document(node)
+        if isinstance(r, str) and r in self.fnames:
+            return r
+        if type(r) in self.Y.values():
+            return 'FY'
+        return 'val:' + type(r).__name__
+
+    def p_represent(self, d, p):
+        if p == 'rY1':
+            if 'Y1' not in self.Y:
+                obj = type('Z', (), {})()     # no YAMLObject class exists: an instance of an unrelated fresh class
+            else:
+                obj = self.Y['Y1'].__new__(self.Y['Y1'])
+            obj.attr = 1
+        else:
+            obj = self.K[p[1:]]()
+        node = d.represent_data(obj)
+        if node.tag[:2] == '!F' and node.tag[1:] in self.fnames:
+            return node.tag[1:]
+        if node.tag == '!y1':
+            return 'FY'
+        return 'tag:' + re.sub(r'(python/object:).*', r'\1*', node.tag)
+
+    def p_resolve(self, inst, p):
+        t = inst.resolve(self.nodes.ScalarNode, {'ia': 'axx', 'iE': '0xx'}[p], (True, False))
+        return self.gname.get(t, 'tag:' + t)
+
+    def compose(self, c):
+        """DOC through the Composer and Resolver of class c (pure-Python loaders: the events are fed in directly)."""
+        if issubclass(c, self.pure_parser):
+            ld = c('')
+            f = Feeder(self.doc_events)
+            ld.check_event, ld.peek_event, ld.get_event = f.check_event, f.peek_event, f.get_event
+            try:
+                return ld.get_single_node()
+            finally:
+                ld.dispose()
+        return self.yaml.compose(DOC, Loader=c)
+
+    def p_paths_loader(self, c, ps):
+        node = self.compose(c)
+        d = {k.value: v for k, v in node.value}
+        out = {}
+        for p in ps:
+            t = d['key1'].tag if p == 'pQ1' else d['key2'].value[0].tag
+            out[p] = self.gname.get(t, 'tag:' + t)
+        return out
+
+    def p_paths_dumper(self, c, ps):
+        """Serialize the representation graph of DOC: a str node on a path for which a path resolver applies does not
+        resolve to !!str any more, so its tag has to be written."""
+        text = self.yaml.serialize(self.doc_node, Dumper=c)
+        out = {}
+        for p in ps:
+            rx = r'key1: *!' if p == 'dQ1' else r'key2: *(?:\n *- *|\[ *)!'
+            out[p] = 'EXPL' if re.search(rx, text) else 'plain'
+        return out
+
+    def probes(self, name, plist):
+        c = self.cls[name]
+        is_loader = hasattr(c, 'construct_document')
+        out = {}
+        g = {}
+        for p in plist:
+            g.setdefault(p[0], []).append(p)
+        if 'c' in g or 'r' in g or 'i' in g:
+            try:
+                inst = c('') if is_loader else c(io.StringIO())
+            except Exception as e:
+                inst = None
+                for p in g.get('c', []) + g.get('r', []) + g.get('i', []):
+                    out[p] = 'exc:' + type(e).__name__
+            if inst is not None:
+                try:
+                    for p in g.get('c', ()):
+                        out[p] = self.guard(self.p_construct, inst, p)
+                    for p in g.get('r', ()):
+                        out[p] = self.guard(self.p_represent, inst, p)
+                    if 'i' in g:
+                        r = self.guard(inst.descend_resolver, None, None)   # what compose_document / serialize do first
+                        for p in g['i']:
+                            out[p] = r if isinstance(r, str) else self.guard(self.p_resolve, inst, p)
+                        self.guard(inst.ascend_resolver)
+                finally:
+                    inst.dispose()
+        for kind, fn in (('p', self.p_paths_loader), ('d', self.p_paths_dumper)):
+            if kind in g:
+                r = self.guard(fn, c, g[kind])
+                for p in g[kind]:
+                    out[p] = r if isinstance(r, str) else r[p]
+        return out
 
 
-# ------------------------------------------------------------------ replay of one history (in a forked child)
-def run_history(w, st, kinds, use_between=False):
-    """Returns list of mismatches (dicts).  use_between: every class is USED (all behaviour probes, results discarded)
-    after every step but the last, so that anything an implementation remembers from a use - a memo table, a cache of a
-    split registry - meets the next registration."""
-    hist = st['hist']
-    for j, op in enumerate(hist):
-        w.apply([tuple(x) if isinstance(x, list) and False else x for x in op])
-        if use_between and j + 1 < len(hist):
-            for name in reversed(list(w.cls)):      # subclasses before their bases: a use must not be served by the base's state
-                if name.endswith(('Constructor', 'Representer', 'Resolver')) or name not in st['beh'] or not isinstance(st['beh'][name], dict):
-                    continue
-                for p in st['beh'][name]:
-                    w.probe(name, p)
-    defined = tlaval.setval(st['defined'])
-    bad = []
-    for name in defined:
+def die_with_parent():
+    """a forked child must not outlive the process that waits for it (a killed run leaves nothing behind)"""
+    try:
+        import ctypes
+        ctypes.CDLL(None).prctl(1, 9)        # PR_SET_PDEATHSIG, SIGKILL
+    except Exception:
+        pass
+
+
+def probe_list(name, c):
+    ps = []
+    if hasattr(c, 'construct_document'):
+        ps += ['cT1', 'cT2', 'cY1', 'pQ1', 'pQ2']
+    if hasattr(c, 'represent_data'):
+        ps += ['rT1', 'rT2', 'rY1', 'dQ1', 'dQ2']
+    return ps + ['ia', 'iE']
+
+
+def import_time_behaviour():
+    """Behaviour of every shipped loader/dumper before any registration, observed in a forked child so that the
+    replaying processes start from classes nobody has used yet."""
+    r, wfd = os.pipe()
+    pid = os.fork()
+    if pid == 0:
+        rc = 0
+        try:
+            os.close(r)
+            w = World()
+            out = {}
+            for name in LOADERS + DUMPERS:
+                for p, got in w.probes(name, probe_list(name, w.cls[name])).items():
+                    out[name + ' ' + p] = got
+            with os.fdopen(wfd, 'w') as f:
+                json.dump(out, f)
+        except BaseException:
+            traceback.print_exc()
+            rc = 3
+        os._exit(rc)
+    os.close(wfd)
+    with os.fdopen(r) as f:
+        txt = f.read()
+    _, status = os.waitpid(pid, 0)
+    if status != 0 or not txt:
+        raise SystemExit('machinery failure: could not observe the import-time behaviour')
+    return {tuple(k.split(' ')): v for k, v in json.loads(txt).items()}
+
+
+# ------------------------------------------------------------------ comparison of one node with the H prediction
+def order(w, st):
+    """classes in checking order: subclasses before their bases (a use must not be served by the base's state)"""
+    defined = set(st['defined'])
+    return [n for n in reversed(list(w.cls)) if n in defined]
+
+
+def use_all(w, st):
+    for name in order(w, st):
+        b = st['beh'].get(name)
+        if name in MIXINS or not isinstance(b, dict):
+            continue
+        w.probes(name, list(b))
+
+
+def compare(w, st, kinds):
+    bad, drift = [], 0
+    for name in order(w, st):
         c = w.cls[name]
         for k in kinds:
             if not hasattr(c, ATTR[k]):
@@ -309,155 +470,375 @@ def run_history(w, st, kinds, use_between=False):
             got = w.alpha(name, k)
             if got != exp:
                 bad.append({'what': 'table', 'cls': name, 'kind': k, 'expected': exp, 'observed': got})
-        if name in st['beh'] and isinstance(st['beh'][name], dict):
-            for p, exp in st['beh'][name].items():
-                if name.endswith(('Constructor', 'Representer', 'Resolver')):
-                    continue
-                got = w.probe(name, p)
-                if exp == 'BASE':
-                    exp = w.base_beh[(w.root[name], p)]
-                if got != exp:
-                    bad.append({'what': 'behaviour', 'cls': name, 'probe': p, 'expected': exp, 'observed': got})
-    # L-only observation: which classes own a table (drift, never a verdict)
-    drift = []
-    for name in defined:
-        for k in kinds:
-            c = w.cls[name]
-            if hasattr(c, ATTR[k]) and name in st['own']:
-                if (ATTR[k] in c.__dict__) != st['own'][name][k]:
-                    drift.append([name, k])
+            # L-only observation: which classes own a table (drift, never a verdict)
+            if (ATTR[k] in c.__dict__) != st['own'][name][k]:
+                drift += 1
+        b = st['beh'].get(name)
+        if name in MIXINS or not isinstance(b, dict):
+            continue
+        got = w.probes(name, list(b))
+        for p, exp in b.items():
+            if exp == 'BASE':
+                exp = w.base_beh[(w.root[name], p)]
+            if got[p] != exp:
+                bad.append({'what': 'behaviour', 'cls': name, 'probe': p, 'expected': exp, 'observed': got[p]})
     return bad, drift
 
 
-def worker(args):
-    path, start, end, kinds = args
-    w = World()
-    # import-time behaviour of every shipped loader/dumper for every probe
-    for name, c in list(w.cls.items()):
-        if name.endswith(('Constructor', 'Representer', 'Resolver')):
-            continue
-        for p in ['cT1', 'cT2', 'cY1', 'rT1', 'rT2', 'rY1', 'ia', 'iE', 'pQ1', 'pQ2']:
-            if p[0] == 'c' and not hasattr(c, 'construct_document'):
-                continue
-            if p[0] == 'p' and not hasattr(c, 'construct_document'):
-                continue
-            if p[0] == 'r' and not hasattr(c, 'represent_data'):
-                continue
-            w.base_beh[(name, p)] = w.probe(name, p)
-    res = {'n': 0, 'bad': [], 'drift': 0, 'samples': []}
-    with open(path) as f:
-        f.seek(start)
-        buf = f.read(end - start)
-    for chunk in re.split(r'(?m)^State \d+:\n', buf):
-        if not chunk.strip():
-            continue
-        st = tlaval._state([chunk])
-        res['n'] += 1
-        try:
-            bad, drift = run_history(w, st, kinds)
-            if not bad and len(st['hist']) >= 2:
-                w.reset()
-                bad, drift2 = run_history(w, st, kinds, use_between=True)
-                for b in bad:
-                    b['variant'] = 'every class used between the steps'
-            d = {'bad': bad, 'drift': drift}
-        except Exception:
-            import traceback
-            d = {'crash': traceback.format_exc()}
-        w.reset()
-        if 'crash' in d:
-            res['bad'].append({'hist': st['hist'], 'mismatch': [{'what': 'harness-crash', 'detail': d['crash']}]})
-            continue
-        if d['bad']:
-            res['bad'].append({'hist': st['hist'], 'mismatch': d['bad'][:6]})
-        res['drift'] += len(d['drift'])
-        if len(res['samples']) < 2 and len(st['hist']) >= 2:
-            res['samples'].append(st['hist'])
+# ------------------------------------------------------------------ the tree walk (one forked process per node)
+NEED = ('hist', 'defined', 'eff', 'beh', 'own')
+_KEY = re.compile(r'([{,]\s*)([A-Za-z_]\w*)\s*:')
+_STR = re.compile(r'"([^"]*)"')
+
+
+def to_py(val):
+    """a TLC-printed value made of strings, booleans, sequences and records with identifier keys -> Python (via JSON)"""
+    t = val.replace('[', '{').replace(']', '}').replace('<<', '[').replace('>>', ']').replace('|->', ':')
+    t = _KEY.sub(r'\1"\2":', t).replace('TRUE', 'true').replace('FALSE', 'false')
+    try:
+        return json.loads(t)
+    except ValueError:
+        return tlaval.parse(val)
+
+
+def parse_state(chunk, need=NEED):
+    d = {}
+    for part in re.split(r'(?m)^/\\ ', chunk):
+        name, _, val = part.partition('=')
+        name = name.strip()
+        if name in need:
+            d[name] = _STR.findall(val) if name == 'defined' else to_py(val)
+    return d
+
+
+class Node:
+    """one state of the dump: its history, and the rest of it parsed on demand (in the process that checks it)"""
+    __slots__ = ('hist', 'raw')
+
+    def __init__(self, raw):
+        self.raw = raw
+        self.hist = parse_state(raw, ('hist',))['hist']
+
+    def state(self):
+        return parse_state(self.raw)
+
+
+class Walk:
+    def __init__(self, w, nodes, kinds, fd):
+        self.w, self.nodes, self.kinds, self.fd = w, nodes, kinds, fd
+        self.children = {}
+        for key, n in nodes.items():
+            if n.hist:
+                self.children.setdefault(json.dumps(n.hist[:-1]), []).append(key)
+        for v in self.children.values():
+            v.sort()
+
+    def emit(self, rec):
+        os.write(self.fd, (json.dumps(rec, default=str) + '\n').encode())
+
+    def child(self, hist, fn):
+        """run fn in a forked copy of this process; whatever it does to the classes stays there"""
+        pid = os.fork()
+        if pid == 0:
+            rc = 0
+            try:
+                die_with_parent()
+                fn()
+            except BaseException:
+                rc = 3
+                try:
+                    self.emit({'crash': traceback.format_exc(), 'hist': hist})
+                except BaseException:
+                    pass
+            os._exit(rc)
+        _, status = os.waitpid(pid, 0)
+        if status != 0 and status != 3 << 8:
+            self.emit({'crash': 'child ended with status %d' % status, 'hist': hist})
+
+    def check(self, key, variant):
+        st = self.nodes[key].state()
+        bad, drift = compare(self.w, st, self.kinds)
+        if bad or drift:
+            rec = {'v': variant, 'drift': drift}
+            if bad:
+                rec['hist'], rec['bad'] = st['hist'], bad[:6]
+            self.emit(rec)
+        else:
+            os.write(self.fd, b'p\n' if variant == 'plain' else b'u\n')
+
+    def step(self, key, visit):
+        hist = self.nodes[key].hist
+
+        def run():
+            self.w.apply(hist[-1])
+            visit(key)
+        self.child(hist, run)
+
+    def split(self, key):
+        kids = self.children.get(key, ())
+        inner = [k for k in kids if k in self.children]
+        return inner, [k for k in kids if k not in self.children]
+
+    def leaves(self, keys, variant):
+        """the histories that end below this node, one after the other in this process: apply the last operation,
+        check, put the registries back"""
+        saved = self.w.save()
+        for k in keys:
+            self.w.apply(self.nodes[k].hist[-1])
+            self.check(k, variant)
+            self.w.restore(saved)
+
+    def below(self, key, visit, variant):
+        inner, leaf = self.split(key)
+        for k in inner:
+            self.step(k, visit)
+        if leaf:
+            self.child(self.nodes[key].hist, lambda: self.leaves(leaf, variant))
+
+    def visit_plain(self, key):
+        self.below(key, self.visit_plain, 'plain')          # before anything is used here
+        self.check(key, 'plain')
+        if len(self.nodes[key].hist) == 1:                  # the used lineage starts below the one-step histories
+            self.below(key, self.visit_used, 'used')
+
+    def visit_used(self, key):
+        self.check(key, 'used')
+        self.below(key, self.visit_used, 'used')
+
+    def root(self, key):
+        """a subtree root is reached from the import-time state by its whole history"""
+        hist = self.nodes[key].hist
+
+        def plain():
+            for op in hist:
+                self.w.apply(op)
+            self.visit_plain(key)
+
+        def used():
+            st = self.nodes[key].state()
+            for j, op in enumerate(hist):
+                self.w.apply(op)
+                if j + 1 < len(hist):
+                    use_all(self.w, st)
+            self.visit_used(key)
+        self.child(hist, plain)
+        if len(hist) >= 2:
+            self.child(hist, used)
+
+
+_W = None
+
+
+def init_worker(base_beh):
+    global _W
+    die_with_parent()
+    _W = World()
+    _W.base_beh = base_beh
+
+
+def replay_bucket(args):
+    path, offsets, kinds = args
+    nodes = {}
+    with open(path, 'rb') as f:
+        for a, b in offsets:
+            f.seek(a)
+            n = Node(f.read(b - a).decode())
+            nodes[json.dumps(n.hist)] = n
+    fd, tmp = tempfile.mkstemp(prefix='c10_', dir=ensure_dir(os.path.join(BUILD, 'c10tmp')))
+    try:
+        wk = Walk(_W, nodes, kinds, fd)
+        for key in sorted(nodes):
+            h = nodes[key].hist
+            if not h or json.dumps(h[:-1]) not in nodes:
+                wk.root(key)
+        os.close(fd)
+        res = {'plain': 0, 'used': 0, 'drift': 0, 'bad': [], 'crash': [], 'samples': []}
+        with open(tmp) as f:
+            for line in f:
+                if line == 'p\n':
+                    res['plain'] += 1
+                elif line == 'u\n':
+                    res['used'] += 1
+                else:
+                    rec = json.loads(line)
+                    if 'crash' in rec:
+                        res['crash'].append(rec)
+                        continue
+                    res[rec['v']] += 1
+                    res['drift'] += rec['drift']
+                    if 'bad' in rec:
+                        for b in rec['bad']:
+                            if rec['v'] == 'used':
+                                b['variant'] = 'every class used between the steps'
+                        res['bad'].append({'hist': rec['hist'], 'mismatch': rec['bad']})
+    finally:
+        os.unlink(tmp)
+    res['samples'] = [n.hist for n in list(nodes.values())[:40] if len(n.hist) >= 2][:1]
     return res
 
 
-def split_dump(path, n):
-    size = os.path.getsize(path)
-    cuts = [0]
+# ------------------------------------------------------------------ the dump of one configuration as a tree of tasks
+_HIST = re.compile(rb'(?s)/\\ hist = (.*?)(?=\n/\\ |\Z)')
+_OP = re.compile(rb'<<(?:[^<>]|<<[^<>]*>>)*>>')
+_STATE = re.compile(rb'(?m)^State \d+:\n')
+
+
+def index_dump(path):
+    """[(start, end, ops)] for every state of the dump; ops = the operations of its history as normalised text"""
+    out = []
+    if os.path.getsize(path) == 0:
+        return out
     with open(path, 'rb') as f:
-        for i in range(1, n):
-            f.seek(size * i // n)
-            f.readline()
-            while True:
-                pos = f.tell()
-                line = f.readline()
-                if not line or line.startswith(b'State '):
-                    break
-            if line and pos > cuts[-1]:
-                cuts.append(pos)
-    cuts.append(size)
-    return [(cuts[i], cuts[i + 1]) for i in range(len(cuts) - 1)]
+        mm = mmap.mmap(f.fileno(), 0, access=mmap.ACCESS_READ)
+        heads = [(m.start(), m.end()) for m in _STATE.finditer(mm)]
+        for i, (hs, he) in enumerate(heads):
+            end = heads[i + 1][0] if i + 1 < len(heads) else len(mm)
+            m = _HIST.search(mm, he, end)
+            txt = b''.join(m.group(1).split())
+            ops = _OP.findall(txt[2:-2]) if txt != b'<<>>' else []
+            out.append((he, end, ops))
+        mm.close()
+    return out
+
+
+def buckets(index, limit=BUCKET_LIMIT):
+    """Group the states into subtrees: by the first operation; a group above the limit is split by the next one (its
+    root then stands alone)."""
+    def split(items, depth):
+        groups = {}
+        for it in items:
+            groups.setdefault(tuple(it[2][:depth]), []).append(it)
+        for key, g in sorted(groups.items()):
+            if len(g) <= limit or depth >= 3 or all(len(it[2]) <= depth for it in g):
+                yield g
+            else:
+                yield [it for it in g if len(it[2]) <= depth]
+                yield from split([it for it in g if len(it[2]) > depth], depth + 1)
+    return [g for g in split(index, 1) if g]
 
 
 def tla_set(xs):
     return '{' + ', '.join('"%s"' % x for x in xs) + '}'
 
 
+def state_kinds(kinds):
+    sk = [k for k in kinds if k in ATTR]
+    if 'yobj' in kinds:
+        sk = sorted(set(sk) | {'ctor', 'repr'})
+    return sk
+
+
 def main(tier, replay=None):
+    from .. import pathres
     v = Verdict('C10', tier)
-    states = transitions = traces = 0
-    samples, actions = [], {}
-    configs = ['ctor', 'repr', 'res', 'cross'] + (['wide'] if tier == 'thorough' else [])
-    for name in configs:
-        targets, kinds, q, t = CONFIGS[name]
-        mh = q if tier == 'quick' else t
-        r = tlc.run('Registry', cfg='MC_Registry.cfg', dump=True, tag='C10_' + name, timeout=3000,
-                    constants={'Targets': tla_set(targets), 'OpKinds': tla_set(kinds), 'MaxHist': mh,
-                               'Users': tla_set(['U1'] if tier == 'quick' and name != 'cross' else ['U1', 'U2'])})
-        if r.violated:
-            # L does not refine H in the model: only a VIOLATION if it reproduces on the code, which the
-            # replay below decides; report as machinery failure otherwise
-            print(r.out[-3000:])
-            raise SystemExit('machinery failure: Registry.tla violates %s in configuration %s' % (r.violated, name))
-        tlc.require_ok(r, 'Registry/' + name)
-        states += r.distinct
-        transitions += r.generated
-        for a, c in r.actions.items():
-            actions[a] = actions.get(a, 0) + c[0]
-        skinds = [k for k in kinds if k in ATTR]
-        if 'yobj' in kinds:
-            skinds = sorted(set(skinds) | {'ctor', 'repr'})
-        parts = split_dump(r.dump, 64)
-        with mp.Pool(16) as pool:
-            out = pool.map(worker, [(r.dump, a, b, skinds) for a, b in parts], chunksize=1)
-        n = sum(o['n'] for o in out)
-        if n != r.distinct:
-            raise SystemExit('machinery failure: replayed %d histories, TLC found %d states' % (n, r.distinct))
-        traces += n
+    quick = tier == 'quick'
+    configs = [n for n, c in CONFIGS.items() if (c[4] if quick else c[5])]
+    if os.environ.get('VERIF_C10_CONFIGS'):          # development aid: a subset of the configurations
+        configs = [n for n in configs if n in os.environ['VERIF_C10_CONFIGS'].split(',')]
+    base_beh = import_time_behaviour()
+    pool = mp.Pool(16, initializer=init_worker, initargs=(base_beh,))      # before any thread exists in this process
+    tworkers = 4 if quick else 6
+
+    def run_config(name):
+        targets, kinds, users, fresh, q, t = CONFIGS[name]
+        return tlc.run('Registry', cfg='MC_Registry.cfg', dump=True, tag='C10_' + name, timeout=3000, workers=tworkers,
+                       coverage=not quick, heap='1g' if quick else '4g',
+                       constants={'Targets': tla_set(targets), 'OpKinds': tla_set(kinds), 'Users': tla_set(users),
+                                  'MaxHist': q if quick else t, 'FreshVals': 'TRUE' if fresh else 'FALSE'})
+
+    states = transitions = 0
+    actions, tlc_actions, per_config, pending = {}, {}, {}, []
+    pr_tlc = None
+    with ThreadPoolExecutor(5) as ex:                 # at most five TLC runs at a time, the large ones first
+        futs = {ex.submit(pathres.run_tlc, tier, tworkers): '#path'}
+        futs.update({ex.submit(run_config, n): n for n in configs})
+        for fut in as_completed(futs):
+            name = futs[fut]
+            r = fut.result()
+            if name == '#path':
+                pr_tlc = r
+                pending.append(('#path', None, pathres.submit(pool, r, tier)))
+                continue
+            if r.violated:
+                print(r.out[-3000:])
+                raise SystemExit('machinery failure: Registry.tla violates %s in configuration %s' % (r.violated, name))
+            tlc.require_ok(r, 'Registry/' + name)
+            states += r.distinct
+            transitions += r.generated
+            for a, c in r.actions.items():
+                tlc_actions[a] = tlc_actions.get(a, 0) + c[0]
+            index = index_dump(r.dump)
+            if len(index) != r.distinct:
+                raise SystemExit('machinery failure: %d states in the dump of %s, TLC found %d' % (len(index), name, r.distinct))
+            for s, e, ops in index:
+                if ops:
+                    a = OP_ACTION[ops[-1].split(b'"')[1].decode()]
+                    actions[a] = actions.get(a, 0) + 1
+            per_config[name] = {'states': r.distinct, 'depth2plus': sum(1 for it in index if len(it[2]) >= 2), 'dump': r.dump,
+                                'tlc_wall_s': round(r.wall, 1)}
+            sk = state_kinds(CONFIGS[name][1])
+            bs = sorted(buckets(index), key=len, reverse=True)
+            pending.append((name, None, [pool.apply_async(replay_bucket, ((r.dump, [(s, e) for s, e, _ in b], sk),))
+                                         for b in bs]))
+    pool.close()
+    traces, samples, bad_all = 0, [], []
+    pr_out = None
+    for name, _, asyncs in pending:
+        out = [a.get() for a in asyncs]
+        if name == '#path':
+            pr_out = out
+            continue
+        pc = per_config[name]
+        plain, used = sum(o['plain'] for o in out), sum(o['used'] for o in out)
+        crashes = [c for o in out for c in o['crash']]
+        for c in crashes:
+            bad_all.append((name, {'hist': c['hist'], 'mismatch': [{'what': 'harness-crash', 'detail': c['crash']}]}))
+        if not crashes and (plain != pc['states'] or used != pc['depth2plus']):
+            raise SystemExit('machinery failure: %s replayed %d+%d histories, expected %d+%d'
+                             % (name, plain, used, pc['states'], pc['depth2plus']))
+        pc['replayed_plain'], pc['replayed_used'] = plain, used
+        traces += plain + used
         drift = sum(o['drift'] for o in out)
         if drift:
             v.note('spec-drift C10/%s: %d own-table flags differ from the L model (allowed by H)' % (name, drift))
         for o in out:
             samples += o['samples'][:1]
-            for b in o['bad']:
-                m = b['mismatch'][0]
-                key = {'config': name, 'what': m['what'], 'ops': [op[0] + ':' + str(op[1]) for op in b['hist']]}
-                v.violation(key, b)
-        os.remove(r.dump)
+            bad_all += [(name, b) for b in o['bad']]
+        os.remove(pc.pop('dump'))
+    pool.join()
+    for name, b in sorted(bad_all, key=lambda x: (len(x[1]['hist']), x[0], json.dumps(x[1]['hist']), x[1]['mismatch'][0].get('variant', ''))):
+        m = b['mismatch'][0]
+        key = {'config': name, 'what': m['what'], 'ops': [op[0] + ':' + str(op[1]) for op in b['hist']]}
+        v.violation(key, b)
     # what a registered path resolver does: spec/PathResolver.tla, replayed on fresh subclasses
-    from .. import pathres
-    pr = pathres.run(v, tier)
+    pr = pathres.collect(v, tier, pr_tlc, pr_out)
     states += pr['states']
     transitions += pr['transitions']
     traces += pr['traces']
-    samples += pr['samples']
-    for a in ['Add', 'DefineSub', 'ModuleAdd', 'YObj', 'YSub']:
+    for a in OP_ACTION.values():
+        if os.environ.get('VERIF_C10_CONFIGS'):
+            break
         if actions.get(a, 0) == 0:
             raise SystemExit('machinery failure: action %s never fired (vacuous run)' % a)
+        if not quick and tlc_actions.get(a, 0) == 0:
+            raise SystemExit('machinery failure: TLC coverage reports that action %s never fired' % a)
     v.cov = {'states': states, 'transitions': transitions, 'traces_validated_against_impl': traces,
-             'samples': samples[:6], 'exhaustive': True, 'actions_fired': actions,
-             'rule': 'every reachable state of Registry.tla = one registration history (bounded length, see configs); '
-                     'each is replayed on the live classes in a forked child and all effective tables + behaviour probes '
-                     'are compared with the H prediction',
-             'configs': {n: {'targets': CONFIGS[n][0], 'kinds': CONFIGS[n][1],
-                             'max_hist': CONFIGS[n][2 if tier == 'quick' else 3]} for n in configs}}
+             'samples': samples[:4] + pr['samples'], 'exhaustive': True, 'actions_fired': actions,
+             'distinct_nontrivial': sum(pc['depth2plus'] for pc in per_config.values()),
+             'rule': 'every reachable state of Registry.tla = one registration history (bounded length, see configs); each '
+                     'is replayed on the live classes (one forked process per node of the history tree), once with no '
+                     'class used before the end and, from length 2, once with every class used after every step; all '
+                     'effective tables + behaviour probes (real dispatch) are compared with the H prediction; '
+                     'nontrivial = histories of length >= 2',
+             'configs': {n: dict(per_config[n], targets=CONFIGS[n][0], kinds=CONFIGS[n][1], users=CONFIGS[n][2],
+                                 fresh_values=CONFIGS[n][3], max_hist=CONFIGS[n][4 if quick else 5]) for n in configs}}
     v.cov['path_resolver_states'] = pr['states']
     v.cov['path_resolver_nodes_compared'] = pr['traces']
-    v.assumptions = ['single inheritance for user classes (C3 linearisation of multiple user bases not modelled)',
-                     'tables abstracted to 3 keys per kind; all other entries are checked as an unchanged frame']
+    v.assumptions = ['single inheritance for user classes (C3 linearisation of multiple user bases not modelled); user '
+                     'classes derive from loaders/dumpers, not from bare mixins',
+                     'tables abstracted to 3 keys per kind; all other entries are checked as an unchanged frame',
+                     'FreshVals configurations: registered callables/tags are opaque to the registries (step i registers '
+                     'value i); the chain configurations choose values freely',
+                     'quick tier: action coverage is counted from the last operation of every replayed history, the '
+                     'thorough tier also runs TLC with -coverage 1']
     return v.finish()
